@@ -222,6 +222,13 @@ class CompilerState(CoderState):
     def add_bitmap_link(self):
         self.add_statement(StateMethodCall(get_func_name()))
 
+    def cancel_new_refvals(self):
+        # The cancellation (203000) takes effect at compile time for the elements
+        # that follow. It must also happen at run time, where the new reference
+        # values are kept for the marker operators.
+        self.new_refvals = {}
+        self.add_statement(StateMethodCall(get_func_name()))
+
 
 class TemplateCompiler(Coder):
     """
